@@ -226,8 +226,11 @@ def run(chk):
         dfs, suffixes = [], []
         for i in range(nt):
             ks = rng.sample(keys_all, rng.randint(1, 6))
-            dfs.append(pd.DataFrame({"key": ks, "val": [rng.randint(0, 99) for _ in ks], f"x{i}": [rng.random() for _ in ks]}))
+            dfs.append(pd.DataFrame({"key": ks, "val": [rng.randint(0, 99) for _ in ks],
+                                     f"x{i}": [rng.random() if rng.random() < 0.8 else float("nan") for _ in ks]}))
             suffixes.append(f"s{i}")
+        if rng.random() < 0.2:
+            suffixes.append("unused")              # more suffixes than tables: zip() ignores the rest
         how = rng.choice(["outer", "inner", None])
         mode = rng.choice(["column", "index", "suffix-column", "suffix-index"])
         kw = {} if how is None else {"how": how}
@@ -270,12 +273,40 @@ def run(chk):
                     for c in d.columns:
                         v = out.loc[k, c]
                         if k in d.index:
-                            ok = ok and (v == d.loc[k, c])
+                            w = d.loc[k, c]
+                            ok = ok and (v == w or (isinstance(w, float) and math.isnan(w) and isinstance(v, float) and math.isnan(v)))
                         else:
                             ok = ok and (isinstance(v, float) and math.isnan(v))
         if not ok:
             chk.violation(f"C18|multimerge|{mode}|differs", f"multimerge({mode}, how={how}) is not the {how or 'outer'} join of all tables on the key",
                           {**meta, "real_index": [str(i) for i in out.index], "real_columns": list(out.columns)})
+            continue
+        # the Lean model (C18_multimerge_*): same join, compared as key -> {column: cell}
+        def cell(v):
+            return None if (v is None or (isinstance(v, float) and math.isnan(v))) else repr(float(v))
+        if mode.startswith("suffix"):
+            src = [d.set_index("key") for d in dfs]
+            sfx = suffixes
+        else:
+            src = named
+            sfx = None
+        op = {"op": "multimerge", "outer": how in (None, "outer"), "suffixes": sfx,
+              "tables": [{"cols": list(d.columns), "rows": [[str(k), [cell(v) for v in d.loc[k].tolist()]] for k in d.index]} for d in src]}
+        a = core.run_driver([op])[0]
+        if a[0] != "ok":
+            chk.model_error(f"multimerge model op failed: {a}")
+            continue
+        mcols = a[1]["cols"]
+        model_map = {k: dict(zip(mcols, cells)) for k, cells in a[1]["rows"]}
+        real_map = {str(k): {c: cell(out.loc[k, c]) for c in out.columns} for k in out.index}
+        if sorted(mcols) != sorted(out.columns) or model_map != real_map:
+            chk.violation(f"C18|multimerge|{mode}|vs-model", f"multimerge({mode}, how={how}) differs from the modelled join",
+                          {**meta, "real": str(real_map)[:1500], "model": str(model_map)[:1500]})
+        elif mode.startswith("suffix") or mode == "index":
+            # column ORDER: the tables' blocks side by side (for on=<column> pandas keeps the key column first; not compared)
+            if list(out.columns) != mcols:
+                chk.violation(f"C18|multimerge|{mode}|column-order", "the merged columns are not the tables' columns side by side",
+                              {**meta, "real": list(out.columns), "model": mcols})
 
 
 def replay(path):
